@@ -48,7 +48,7 @@ theorem quot_no_false_tie (ma mb : Nat) (hfa : ma < F.infMag) (hfb : mb < F.infM
   obtain ⟨pa, ea, hva, hpa, _⟩ := sval_F_form ma hfa
   obtain ⟨pb, eb, hvb, hpb, _⟩ := sval_F_form mb hfb
   apply no_false_tie_of_gap _ _ hb0 hR
-  intro sh m Δ _ _ hΔ h
+  intro sh m Δ _ _ hΔ _ h
   have e : sval F ma * 2 ^ 149 = pa * 2 ^ (ea + 149) := by rw [hva, Nat.mul_assoc, ← Nat.pow_add]
   rw [e, hvb] at h; rw [hvb]
   exact div_gap pa pb (ea + 149) eb sh (2 * m + 1) Δ hpa hpb (by omega) hΔ h
